@@ -264,7 +264,78 @@ func c15(r *vlib.Run) int {
 	})
 	c15Overlap(r)
 	c15NonCumulative(r)
+	c15AppendComplete(r)
 	return 10
+}
+
+// c15AppendComplete: un-killed append runs, judged completely: onto no file,
+// onto an existing but empty file, onto one and two earlier results. The file
+// must be: the header once, in the first line, then the rows of every run in
+// the order of the runs (each run's rows as a multiset).
+func c15AppendComplete(r *vlib.Run) {
+	type ac struct {
+		name     string
+		existing int
+		empty    bool
+		rows     int
+	}
+	cases := []ac{{"append-onto-nothing", 0, false, 3}, {"append-onto-an-empty-file", 0, true, 3}, {"append-onto-an-empty-file-200", 0, true, 200},
+		{"append-onto-one-result", 1, false, 3}, {"append-onto-two-results", 2, false, 40}}
+	vlib.Parallel(len(cases), 3, func(i int) {
+		c := cases[i]
+		dir := r.Dir("c15-" + c.name)
+		defer os.RemoveAll(dir)
+		sc := c15Scenario{Name: c.name, Rows: c.rows, Append: true, Existing: c.existing}
+		c15Prepare(r, dir, sc)
+		out := filepath.Join(dir, "result.csv")
+		if c.empty {
+			os.WriteFile(out, nil, 0644)
+		}
+		res, _ := c15Run(r, dir, sc, 0, "", nil, nil)
+		r.Eval("append-complete|" + c.name)
+		r.Count("append_runs_judged_completely", 1)
+		if res.TimedOut || res.Exit != 0 {
+			r.Violation("reference-run-failed", map[string]interface{}{"scenario": c.name, "exit": res.Exit, "stderr": vlib.Trunc(string(res.Stderr), 1200)})
+			return
+		}
+		content, _ := os.ReadFile(out)
+		lines := strings.Split(strings.TrimSuffix(string(content), "\n"), "\n")
+		header, _ := c15Expected(c.rows, 0)
+		why := ""
+		switch {
+		case len(content) == 0 || !strings.HasSuffix(string(content), "\n"):
+			why = "outfile empty or not ending with a complete line"
+		case lines[0] != header:
+			why = fmt.Sprintf("first line is %q, not the header", vlib.Trunc(lines[0], 80))
+		case len(lines)-1 != (c.existing+1)*c.rows:
+			why = fmt.Sprintf("%d rows, want %d (%d runs of %d rows)", len(lines)-1, (c.existing+1)*c.rows, c.existing+1, c.rows)
+		}
+		if why == "" {
+			for k, l := range lines[1:] {
+				if l == header {
+					why = fmt.Sprintf("header repeated in line %d", k+2)
+					break
+				}
+			}
+		}
+		if why == "" {
+			// the last run's rows
+			_, want := c15Expected(c.rows, 0)
+			got := map[string]int{}
+			for _, l := range lines[len(lines)-c.rows:] {
+				got[l]++
+			}
+			for row, n := range want {
+				if got[row] != n {
+					why = fmt.Sprintf("row %q of the appended result occurs %d times, want %d", row, got[row], n)
+					break
+				}
+			}
+		}
+		if why != "" {
+			r.Violation("append-outfile-damaged", map[string]interface{}{"scenario": c.name, "why": why, "outfile": vlib.Trunc(string(content), 1200)})
+		}
+	})
 }
 
 type c15NonCumCase struct {
